@@ -181,6 +181,9 @@ func (k *Kernel) procMain(p *Proc) {
 			outfile := ""
 			if spec.OutFile != "" {
 				outfile = k.Dir + "/" + spec.OutFile
+				if k.sc.Knobs.RelRepo {
+					outfile = spec.OutFile // as typed on the command line, relative to the working directory
+				}
 			}
 			runErr = action.Run(ctx, proc, spec.Program, "", outfile)
 		}
